@@ -9,5 +9,6 @@ INVARIANTS
   C04_LenAgrees_KF
   C04_LenAgreesDec
   C04_ShapeRoundTrip_KF
+  C04_NextHopLen
   C04_Fixpoint_KF
   C04_Equal_KF
